@@ -119,6 +119,29 @@ func c11Obs(shape *tshape, op string, g uint64, expand bool, vshape *tshape, h t
 			}
 			_ = origRoot
 			return "res=OK orig=" + d0 + " val=" + dv + " new=" + d.dump(n2) + " root=" + rootHex(n2.MerkleRoot(h)) + " origroot=" + rootHex(rawRoot(n, h))
+		case "set2":
+			// one link applied twice (a root request in between): the first result must keep
+			// its value, the second must be the write of the second value into the ORIGINAL tree
+			v := vshape.build()
+			link, err := n.Setter(tree.Gindex64(g), expand)
+			if err != nil {
+				return "res=ERR"
+			}
+			n1, err := link(v)
+			if err != nil {
+				return "res=ERR"
+			}
+			r1 := n1.MerkleRoot(h)
+			var second tree.Root
+			for i := range second {
+				second[i] = 0x5a
+			}
+			n2, err := link(&second)
+			if err != nil {
+				return "res=ERR2"
+			}
+			return "res=OK t1=" + plainDump(n1) + " r1=" + rootHex(r1) + " t2=" + plainDump(n2) + " r2=" + rootHex(n2.MerkleRoot(h)) +
+				" raw1=" + rootHex(rawRoot(n1, h)) + " raw2=" + rootHex(rawRoot(n2, h)) + " origroot=" + rootHex(rawRoot(n, h))
 		case "summ":
 			link, err := n.SummarizeInto(tree.Gindex64(g), h)
 			if err != nil {
@@ -184,6 +207,9 @@ func TestC11(t *testing.T) {
 				v := vs[int(g)%len(vs)]
 				for _, e := range []bool{false, true} {
 					out.emit("ex", "c11", []string{sh.Sexp(), "set", hx(g), b01(e), v.Sexp()}, c11Obs(sh, "set", g, e, v, h))
+					if e || g%3 == 0 {
+						out.emit("ex2", "c11", []string{sh.Sexp(), "set2", hx(g), b01(e), v.Sexp()}, c11Obs(sh, "set2", g, e, v, h))
+					}
 				}
 				out.emit("ex", "c11", []string{sh.Sexp(), "summ", hx(g), "0", "-"}, c11Obs(sh, "summ", g, false, nil, h))
 			}
@@ -233,6 +259,7 @@ func TestC11(t *testing.T) {
 				g := uint64(1)<<uint(d) | i
 				zs := &tshape{kind: "Z", d: d}
 				out.emit("zexp", "c11", []string{zs.Sexp(), "set", hx(g), "1", vs[0].Sexp()}, c11Obs(zs, "set", g, true, vs[0], h))
+				out.emit("zexp2", "c11", []string{zs.Sexp(), "set2", hx(g), "1", vs[0].Sexp()}, c11Obs(zs, "set2", g, true, vs[0], h))
 				var mat func(k int) *tshape
 				mat = func(k int) *tshape {
 					if k == 0 {
